@@ -424,7 +424,7 @@ fn c19_fleet_broadcast(case: &Case) {
                 .with_name(format!("n{n}"))
                 .unwrap()
                 .with_tags(tags.iter().map(|t| t.to_string()))
-                .with_timeout(Duration::from_millis(50))
+                .with_timeout(Duration::from_millis(pick(&[20u64, 50, 150])))
                 .unwrap(),
         );
         node_tags.push(tags);
@@ -432,7 +432,7 @@ fn c19_fleet_broadcast(case: &Case) {
     let max_attempts = range(1, 3) as usize;
     let fleet = Fleet::with_options(
         cfgs,
-        FleetOptions { default_timeout: Duration::from_millis(pick(&[1u64, 50, 5_000])), retry_policy: RetryPolicy { max_attempts, delay: Duration::from_millis(5) } },
+        FleetOptions { default_timeout: Duration::from_millis(pick(&[1u64, 50, 5_000])), retry_policy: RetryPolicy { max_attempts, delay: Duration::from_millis(pick(&[0u64, 5, 30])) } },
     )
     .unwrap();
     let mut want_tags: Vec<&str> = all_tags.iter().copied().filter(|_| simkernel::choose(3) == 0).collect();
